@@ -182,6 +182,8 @@ def analyse(ctx, repo, prop):
         o_, _ = underlying(p_)
         if isinstance(o_, Term) and o_.op == "spadd":
             ray = o_
+        elif isinstance(o_, Term) and o_.op == "diags" and len(_split_multi_diags([o_])) == 2:
+            ray = Term("spadd", [p_])           # both diagonals built by one diags((up, down), offsets=(+n_o, -n_o)) call
         elif isinstance(o_, Term) and o_.op == "bmat":
             lat = (o_, p_)
     if ray is None or lat is None:
@@ -194,6 +196,7 @@ def analyse(ctx, repo, prop):
         o_, _ = underlying(d_)
         if isinstance(o_, Term) and o_.op == "diags":
             dgs.append(o_)
+    dgs = _split_multi_diags(dgs)
     ctx.instance("MIRROR")
     if len(dgs) != 2:
         ctx.inconclusive("MIRROR", f"{tag}.ray", "expected two diagonals", where, witness=show(ray)[:300])
@@ -378,6 +381,24 @@ def forward_recurrences(ctx, repo):
 
 def norm_src(n):
     return " ".join(src(n).split())[:200]
+
+
+def _split_multi_diags(dgs):
+    """diags((v0, v1), offsets=(a, b), ...) -> two single-diagonal terms"""
+    out = []
+    for d_ in dgs:
+        vals = d_.args[0] if d_.args else None
+        offs = d_.kw.get("offsets", d_.args[1] if len(d_.args) > 1 else None)
+        vi = vals.items if isinstance(vals, TupleV) else None
+        oi = offs.items if isinstance(offs, TupleV) else None
+        if vi is not None and oi is not None and len(vi) == len(oi) and len(vi) >= 2:
+            for v_, o_ in zip(vi, oi):
+                kw = dict(d_.kw)
+                kw["offsets"] = o_
+                out.append(Term("diags", [v_], kw))
+        else:
+            out.append(d_)
+    return out
 
 
 def run(ctx, repo, tier):
